@@ -30,7 +30,7 @@ func init() {
 		pkgPath:   "github.com/yandex/pandora/core/schedule",
 		module:    "C02Src",
 		namespace: "Pandora.Gen.C02Src",
-		imports:   []string{"Pandora.Model.C02Ns"},
+		imports:   []string{"Pandora.Model.C02Ns", "Pandora.Model.C02NextC"},
 		extra:     c02srcExtra,
 	}
 }
@@ -1069,6 +1069,331 @@ func (x *c02srcTr) leftDecision(w bool) string {
 	return b.String()
 }
 
+// ---------------------------------------------------------------- 4. compositeSchedule.Next, section by section
+
+// c02srcNext re-translates compositeSchedule.Next into the two atomic sections of the concurrent model
+// (Model/C02Par.lean): what happens from RLock to the point before Lock (`…_Next_reader`) and from Lock to the end
+// (`…_Next_writer`), in continuation style over the building blocks of Model/C02NextC.lean (`cChildNext`, `cLen`,
+// `cStartNext`). Control flow and data flow are kept as they are in the source: a Go variable is a Lean variable of the
+// same scope (an assignment rebinds it, a `:=` in an `if` initialiser binds a NEW one that is gone after the `if`),
+// an `if` whose body falls through is followed by the rest on both branches. Lock calls and scheduling points only
+// delimit the sections (their discipline is the subject of area c02locks).
+type c02srcNext struct {
+	x          *c02srcTr
+	recv       types.Object
+	names      map[types.Object]string
+	isB        map[types.Object]bool
+	resTx      types.Object
+	resOk      types.Object
+	intLocals  []types.Object // int locals of the reader part, in order of definition
+	writerRest []ast.Stmt
+	seenVar    types.Object
+	tmp        int
+}
+
+func (n *c02srcNext) recvName() string {
+	if n.recv == nil {
+		return "?"
+	}
+	return n.recv.Name()
+}
+
+func (n *c02srcNext) obj(id *ast.Ident) types.Object {
+	info := n.x.p.TypesInfo
+	if o := info.Uses[id]; o != nil {
+		return o
+	}
+	return info.Defs[id]
+}
+
+func (n *c02srcNext) ival(e ast.Expr) string {
+	x := n.x
+	if s, ok := x.intLit(e); ok {
+		return s
+	}
+	switch v := e.(type) {
+	case *ast.ParenExpr:
+		return n.ival(v.X)
+	case *ast.Ident:
+		if nm, ok := n.names[n.obj(v)]; ok && !n.isB[n.obj(v)] {
+			return nm
+		}
+	case *ast.CallExpr:
+		if x.src(v) == "len("+n.recvName()+".scheds)" {
+			return "cLen s"
+		}
+	case *ast.BinaryExpr:
+		op := map[token.Token]string{token.ADD: "+", token.SUB: "-"}[v.Op]
+		if op != "" {
+			return "(" + n.ival(v.X) + " " + op + " " + n.ival(v.Y) + ")"
+		}
+	}
+	return x.fail(e, "Next: value %s", x.src(e))
+}
+
+func (n *c02srcNext) cond(e ast.Expr) string {
+	x := n.x
+	info := x.p.TypesInfo
+	switch v := e.(type) {
+	case *ast.ParenExpr:
+		return n.cond(v.X)
+	case *ast.Ident:
+		if nm, ok := n.names[n.obj(v)]; ok && n.isB[n.obj(v)] {
+			return nm
+		}
+	case *ast.UnaryExpr:
+		if v.Op == token.NOT {
+			return "(!" + n.cond(v.X) + ")"
+		}
+	case *ast.BinaryExpr:
+		switch v.Op {
+		case token.LOR:
+			return "(" + n.cond(v.X) + " || " + n.cond(v.Y) + ")"
+		case token.LAND:
+			return "(" + n.cond(v.X) + " && " + n.cond(v.Y) + ")"
+		}
+		op := map[token.Token]string{token.LSS: "<", token.LEQ: "≤", token.GTR: ">", token.GEQ: "≥", token.EQL: "=", token.NEQ: "≠"}[v.Op]
+		if op != "" && isInt(info.TypeOf(v.X)) {
+			return "decide (" + n.ival(v.X) + " " + op + " " + n.ival(v.Y) + ")"
+		}
+	}
+	return x.fail(e, "Next: condition %s", x.src(e))
+}
+
+func (n *c02srcNext) fresh(base string) string {
+	n.tmp++
+	return fmt.Sprintf("%s_%d", mangle(base), n.tmp)
+}
+
+func (n *c02srcNext) isChildNext(e ast.Expr) bool {
+	return n.x.src(e) == n.recvName()+".scheds[0].Next()"
+}
+
+func c02srcTerminal(body []ast.Stmt) bool {
+	if len(body) == 0 {
+		return false
+	}
+	_, ok := body[len(body)-1].(*ast.ReturnStmt)
+	return ok
+}
+
+// assign translates `a, b = child.Next()` / `a, b := child.Next()` / `v := len(...)` / `v := <cond>`; returns the Lean
+// line(s) and true, or "" and false if the statement is something else.
+func (n *c02srcNext) assign(as *ast.AssignStmt, ind string, writer bool) (string, bool) {
+	info := n.x.p.TypesInfo
+	if len(as.Lhs) == 2 && len(as.Rhs) == 1 && n.isChildNext(as.Rhs[0]) {
+		var nm [2]string
+		for i, l := range as.Lhs {
+			id, ok := l.(*ast.Ident)
+			if !ok {
+				return "", false
+			}
+			if as.Tok == token.DEFINE && info.Defs[id] != nil {
+				o := info.Defs[id]
+				nm[i] = n.fresh(id.Name)
+				n.names[o] = nm[i]
+				n.isB[o] = i == 1
+			} else {
+				o := n.obj(id)
+				if _, ok := n.names[o]; !ok {
+					return "", false
+				}
+				nm[i] = n.names[o]
+			}
+		}
+		return ind + "cChildNext ops s now fun s " + nm[0] + " " + nm[1] + " =>\n", true
+	}
+	if len(as.Lhs) == 1 && len(as.Rhs) == 1 && as.Tok == token.DEFINE {
+		id, ok := as.Lhs[0].(*ast.Ident)
+		if !ok || info.Defs[id] == nil {
+			return "", false
+		}
+		o := info.Defs[id]
+		switch {
+		case isInt(o.Type()):
+			rhs := n.ival(as.Rhs[0])
+			nm := n.fresh(id.Name)
+			n.names[o] = nm
+			if !writer {
+				n.intLocals = append(n.intLocals, o)
+			}
+			return ind + "let " + nm + " : Int := " + rhs + "\n", true
+		case isBool(o.Type()):
+			rhs := n.cond(as.Rhs[0])
+			nm := n.fresh(id.Name)
+			n.names[o] = nm
+			n.isB[o] = true
+			return ind + "let " + nm + " : Bool := " + rhs + "\n", true
+		}
+	}
+	return "", false
+}
+
+func (n *c02srcNext) uses(list []ast.Stmt, o types.Object) bool {
+	found := false
+	for _, st := range list {
+		ast.Inspect(st, func(x ast.Node) bool {
+			if id, ok := x.(*ast.Ident); ok && n.x.p.TypesInfo.Uses[id] == o {
+				found = true
+			}
+			return !found
+		})
+	}
+	return found
+}
+
+func (n *c02srcNext) stmts(list []ast.Stmt, ind string, writer bool) string {
+	x := n.x
+	if len(list) == 0 {
+		return ind + x.fail(n.x.findMethod("compositeSchedule", "Next"), "Next: control reaches the end of the method")
+	}
+	s0, rest := list[0], list[1:]
+	switch v := s0.(type) {
+	case *ast.ExprStmt:
+		src := x.src(v)
+		switch {
+		case strings.HasSuffix(src, ".rwMu.RUnlock()"), strings.HasSuffix(src, ".rwMu.Unlock()"), strings.HasPrefix(src, "verifhook.At("):
+			return n.stmts(rest, ind, writer)
+		case strings.HasSuffix(src, ".rwMu.Lock()"):
+			if writer {
+				return ind + x.fail(s0, "Next: a second Lock")
+			}
+			var live []types.Object
+			for _, o := range n.intLocals {
+				if n.uses(rest, o) {
+					live = append(live, o)
+				}
+			}
+			if len(live) != 1 {
+				return ind + x.fail(s0, "Next: expected exactly one integer carried from the reader section into the writer section, got %d", len(live))
+			}
+			if n.writerRest != nil {
+				return ind + x.fail(s0, "Next: more than one path reaches Lock")
+			}
+			n.seenVar = live[0]
+			n.writerRest = rest
+			return ind + "(s, .goto (.nextW " + n.names[n.resTx] + " (Int.toNat " + n.names[live[0]] + ")))"
+		case strings.HasPrefix(src, n.recvName()+".startNext("):
+			call := v.X.(*ast.CallExpr)
+			if len(call.Args) != 1 {
+				return ind + x.fail(s0, "Next: startNext arguments")
+			}
+			return ind + "cStartNext ops s " + n.ival(call.Args[0]) + " fun s =>\n" + n.stmts(rest, ind, writer)
+		}
+		return ind + x.fail(s0, "Next: statement %s", src)
+	case *ast.AssignStmt:
+		if l, ok := n.assign(v, ind, writer); ok {
+			return l + n.stmts(rest, ind, writer)
+		}
+		return ind + x.fail(s0, "Next: assignment %s", x.src(s0))
+	case *ast.IfStmt:
+		if v.Else != nil {
+			return ind + x.fail(s0, "Next: if with else")
+		}
+		pre := ""
+		if v.Init != nil {
+			as, ok := v.Init.(*ast.AssignStmt)
+			if !ok {
+				return ind + x.fail(s0, "Next: if initialiser")
+			}
+			l, ok := n.assign(as, ind, writer)
+			if !ok {
+				return ind + x.fail(s0, "Next: if initialiser %s", x.src(as))
+			}
+			pre = l
+		}
+		c := n.cond(v.Cond)
+		body := v.Body.List
+		if !c02srcTerminal(body) {
+			body = append(append([]ast.Stmt{}, body...), rest...)
+		}
+		return pre + ind + "if " + c + " then\n" + n.stmts(body, ind+"  ", writer) + "\n" + ind + "else\n" + n.stmts(rest, ind+"  ", writer)
+	case *ast.ReturnStmt:
+		switch len(v.Results) {
+		case 0:
+			return ind + "(s, .ret (.tok " + n.names[n.resTx] + " " + n.names[n.resOk] + "))"
+		case 1:
+			if x.src(v.Results[0]) == n.recvName()+".Next()" {
+				return ind + "(s, .goto .nextB)"
+			}
+		case 2:
+			a, aok := v.Results[0].(*ast.Ident)
+			b, bok := v.Results[1].(*ast.Ident)
+			if aok && bok {
+				na, ok1 := n.names[n.obj(a)]
+				nb, ok2 := n.names[n.obj(b)]
+				if ok1 && ok2 && n.isB[n.obj(b)] && !n.isB[n.obj(a)] {
+					return ind + "(s, .ret (.tok " + na + " " + nb + "))"
+				}
+			}
+			if bv, ok := x.intLit(v.Results[1]); ok && aok {
+				if na, ok1 := n.names[n.obj(a)]; ok1 {
+					return ind + "(s, .ret (.tok " + na + " " + bv + "))"
+				}
+			}
+		}
+		return ind + x.fail(s0, "Next: return %s", x.src(s0))
+	}
+	return ind + x.fail(s0, "Next: %T", s0)
+}
+
+func (x *c02srcTr) nextSections() string {
+	fd := x.findMethod("compositeSchedule", "Next")
+	if fd == nil {
+		x.failf("method compositeSchedule.Next not found")
+		return ""
+	}
+	info := x.p.TypesInfo
+	n := &c02srcNext{x: x, names: map[types.Object]string{}, isB: map[types.Object]bool{}}
+	if len(fd.Recv.List[0].Names) == 1 {
+		n.recv = info.Defs[fd.Recv.List[0].Names[0]]
+	}
+	var res []types.Object
+	if fd.Type.Results != nil {
+		for _, f := range fd.Type.Results.List {
+			for _, nm := range f.Names {
+				res = append(res, info.Defs[nm])
+			}
+		}
+	}
+	if len(res) != 2 || !isBool(res[1].Type()) {
+		x.failf("compositeSchedule.Next: expected named results (time, bool)")
+		return ""
+	}
+	n.resTx, n.resOk = res[0], res[1]
+	n.names[res[0]] = "tx"
+	n.names[res[1]] = "ok"
+	n.isB[res[1]] = true
+	// prologue: everything before RLock
+	var pro []string
+	i := 0
+	for ; i < len(fd.Body.List); i++ {
+		src := x.src(fd.Body.List[i])
+		if strings.HasSuffix(src, ".rwMu.RLock()") {
+			i++
+			break
+		}
+		pro = append(pro, strconv.Quote(strings.Replace(src, n.recvName()+".", "s.", 1)))
+	}
+	var b strings.Builder
+	fmt.Fprintf(&b, "/-- regenerated from `core/schedule/composite.go` method `(*compositeSchedule).Next`: what it does before `RLock` -/\ndef compositeSchedule_Next_prologue : List String := [%s]\n\n", strings.Join(pro, ", "))
+	reader := n.stmts(fd.Body.List[i:], "  ", false)
+	b.WriteString("/-- … its READER section: from `RLock` to the return or to the point before `Lock` (`.goto (.nextW tx seen)`: the finish\ntime got from the head and the `len(s.scheds)` seen are carried over) -/\n")
+	b.WriteString("def compositeSchedule_Next_reader {σ : Type} (ops : Ops σ) (s : Sh σ) (now : Int) : Sh σ × Out :=\n")
+	b.WriteString("  let tx : Int := 0\n  let ok : Bool := false\n")
+	b.WriteString(reader + "\n\n")
+	if n.writerRest == nil {
+		x.failf("compositeSchedule.Next: no path reaches rwMu.Lock()")
+		return b.String()
+	}
+	b.WriteString("/-- … and its WRITER section: from `Lock` to the return or to the retry `return s.Next()` (`.goto .nextB`) -/\n")
+	b.WriteString("def compositeSchedule_Next_writer {σ : Type} (ops : Ops σ) (s : Sh σ) (tx : Int) (seen : Nat) (now : Int) : Sh σ × Out :=\n")
+	b.WriteString("  let ok : Bool := false\n")
+	b.WriteString("  let " + n.names[n.seenVar] + " : Int := (seen : Int)\n")
+	b.WriteString(n.stmts(n.writerRest, "  ", true) + "\n\n")
+	return b.String()
+}
+
 func c02srcExtra(t *tr) string {
 	x := &c02srcTr{t: t, p: t.pkg}
 	var b strings.Builder
@@ -1081,5 +1406,8 @@ func c02srcExtra(t *tr) string {
 	b.WriteString("-- ---------------------------------------------------------------- the same in machine integers\n\n")
 	b.WriteString(x.newCompositeLoop(true))
 	b.WriteString(x.leftDecision(true))
+	b.WriteString("-- ---------------------------------------------------------------- compositeSchedule.Next\n\nsection\nopen Pandora.Model.C02 Pandora.Model.C02.Par\n\n")
+	b.WriteString(x.nextSections())
+	b.WriteString("end\n")
 	return b.String()
 }
